@@ -6,7 +6,7 @@
 From Coq Require Import NArith ZArith List Lia Bool ZifyBool ZifyN ZifyNat.
 From LV Require Import lib.Bytes model.Codec model.VecIndex model.Abft model.AbftRun spec.ElectionSpec
   proofs.BftGraph proofs.BftRun proofs.BftMain proofs.BftAccept proofs.BftProps
-  proofs.LinkVals proofs.LinkPerm proofs.LinkDefs proofs.LinkNoise proofs.LinkReject proofs.LinkX proofs.LinkEpochX proofs.LinkEpochsX.
+  proofs.LinkVals proofs.LinkPerm proofs.LinkDefs proofs.LinkStep proofs.LinkNoise proofs.LinkEpoch proofs.LinkEpochs proofs.LinkEpochsCor proofs.LinkReject proofs.LinkX proofs.LinkEpochX proofs.LinkEpochsX.
 Import ListNotations.
 Local Open Scope N_scope.
 
@@ -180,4 +180,19 @@ Proof.
   rewrite (link_x cap lam pol vals Ss K Ne OK Hb HK).
   rewrite (link_x cap lam pol vals (map nobuild_S Ss) K Ne (epochs_ok_x_nobuild pol K Ss vals 1 OK)); [| pose proof (total_builds_nobuild Ss); lia | exact HK].
   rewrite map_erase_commute, ref_epochs_x_nobuild. reflexivity.
+Qed.
+
+(* ================= Reset (C09) ================= *)
+(* from ANY instance, after Reset(epoch, validators) the run over the following epochs is the reference's; in
+   particular the instance that a sealing block leaves behind and a Reset instance cannot be told apart *)
+Theorem link_x_after_reset cap lam pol K i ep vals Ss : K < 2 ^ 192 -> vals <> [] ->
+  epochs_ok_x pol K vals ep Ss -> l_ctr (i_st i) + N.of_nat (total_builds Ss) <= K ->
+  model_epochs_x cap lam pol (snd (fst (step cap pol sample i (OpReset ep vals)))) vals ep Ss =
+  map (fun r => (fst (fst r), snd (fst r), option_map mk_vals (snd r))) (ref_epochs_x pol vals ep Ss).
+Proof.
+  intros HK Ne OK Hc. rewrite reset_is_fresh. cbn [fst snd].
+  destruct Ss as [|S0 rest]; [reflexivity|]. pose proof OK as (Raw & Tot & _).
+  destruct (next_vals_ok vals Raw Tot Ne) as (_ & Vok & _ & Hnv).
+  apply (model_epochs_x_sim cap lam pol K HK (S0 :: rest) vals ep _ lam); [|exact OK | cbn [fresh_inst i_st l_ctr]; exact Hc].
+  apply (Sim_fresh ep lam (mk_vals vals) Vok (fun _ => False) K (fun a (F : False) => match F with end) [] (l_ctr (i_st i)) (i_es i)); [lia | exact Hnv].
 Qed.
